@@ -6,6 +6,7 @@ from ..r_readers import rule_raise_family, rule_implicit_raises, rule_tokenizer_
 from ..r_hygiene import rule_hygiene as _rule_hygiene
 from ..r_readers import rule_tokenizer_rejections as _rule_tok_rej
 from ..r_codebooks import rule_cx_radical_lists as _rule_cxr
+from ..r_rings import rule_hybridization_table as _rule_hyb
 
 LEVEL = 'other'
 
@@ -29,3 +30,4 @@ def run(ck, repo):
     _rule_hygiene(ck, repo, 'C08.H-dataflow-hygiene', 'C08')
     _rule_tok_rej(ck, repo, 'C08.D3-tokenizer-rejections')
     _rule_cxr(ck, repo, 'C08.D2-cx-radical-lists', ['chython.files.daylight.smiles', 'chython.files.daylight.smarts'])
+    _rule_hyb(ck, repo, 'C08.D4-hybridization')
